@@ -666,10 +666,12 @@ static void c_exec(const plan_t *p)
 
 static void c_gen(prng_t *r, int mode, plan_t *p)
 {
-    int K_ = 2 + (prng_chance(r, 1, 3) ? (int)prng_below(r, 3) : 0);
+    int scenario = (int)prng_below(r, 9);
+    int K_ = scenario >= 6 ? 3 + (int)prng_below(r, 2) : 2 + (prng_chance(r, 1, 3) ? (int)prng_below(r, 3) : 0);
     int nb = prng_chance(r, 1, 4) ? 2 : 1;
-    int t, i, scenario = (int)prng_below(r, 6);
+    int t, i;
     (void)mode;
+    if (scenario >= 6) nb = 1;
     p->cfg[CF_K] = (uint64_t)K_;
     p->cfg[CF_STRAT] = prng_below(r, 3);
     p->cfg[CF_SSEED] = prng_next(r);
@@ -678,6 +680,25 @@ static void c_gen(prng_t *r, int mode, plan_t *p)
     p->cfg[CF_PCTD] = prng_below(r, 4);
     p->cfg[CF_SWITCH_PM] = 50 + prng_below(r, 600);
     p->cfg[CF_MAINKEEPS] = prng_chance(r, 1, 5) ? prng_below(r, 4) : 0;
+    if (scenario >= 6) {
+        /* the canonical race family, one operation per thread: `nown` owners each reset, everybody else locks a
+         * weak reference (and then looks at what it got). With four threads: two resets racing two lockers. */
+        int nown = 1 + (int)prng_below(r, (uint64_t)(K_ - 1));
+        p->cfg[CF_MAINKEEPS] = 0;
+        for (t = 0; t < K_; t++) {
+            op_t *o;
+            if (t < nown) {
+                p->cfg[CF_INIT0 + t] = 1;                      /* sp0 owns A */
+                o = plan_add(p, T_RESET); o->a[0] = (uint64_t)t; o->a[1] = 0;
+            } else {
+                p->cfg[CF_INIT0 + t] = 1 << 4;                 /* wp0 refers to A */
+                o = plan_add(p, T_LOCK); o->a[0] = (uint64_t)t; o->a[1] = 0; o->a[2] = 0;
+                if (prng_chance(r, 2, 3)) { o = plan_add(p, T_TOUCH); o->a[0] = (uint64_t)t; o->a[1] = 0; }
+                if (prng_chance(r, 1, 3)) { o = plan_add(p, T_RESET); o->a[0] = (uint64_t)t; o->a[1] = 0; }
+            }
+        }
+        return;
+    }
     /* initial references: owners are scarce (the interesting races are around the last one), weak references plentiful */
     for (t = 0; t < K_; t++) {
         uint64_t bits = 0;
